@@ -21,19 +21,32 @@ def _residual_expr(cls, name):
     raise HarnessError("residual expression %s not found in %s.forward" % (name, cls.__name__))
 
 
-def replay_rho_backward(which):
+def replay_rho_backward(which, needs=(True, True)):
     """float64: autograd derivative of the real root-solve function vs central finite differences"""
     from seqm.seqm_functions.cal_par import additive_term_rho1, additive_term_rho2
 
     f, x0, D0 = (additive_term_rho1, 10.0, 0.8) if which == "rho1" else (additive_term_rho2, 3.0, 0.7)
-    x = torch.tensor([x0], requires_grad=True)
-    D = torch.tensor([D0], requires_grad=True)
-    gx, gD = torch.autograd.grad(f.apply(x, D).sum(), (x, D))
+    x = torch.tensor([x0], requires_grad=bool(needs[0]))
+    D = torch.tensor([D0], requires_grad=bool(needs[1]))
+    wrt = [t for t, nd in ((x, needs[0]), (D, needs[1])) if nd]
+    got = torch.autograd.grad(f.apply(x, D).sum(), wrt, allow_unused=True)
+    if any(g is None for g in got):
+        print("replay %s backward with needs_input_grad=%s: no gradient returned for a differentiable input" % (which, tuple(needs)))
+        return True
+    got = list(got)
+    gx = got.pop(0) if needs[0] else None
+    gD = got.pop(0) if needs[1] else None
     h = 1e-5
     fdx = ((f.apply(torch.tensor([x0 + h]), torch.tensor([D0])) - f.apply(torch.tensor([x0 - h]), torch.tensor([D0]))) / (2 * h)).item()
     fdD = ((f.apply(torch.tensor([x0]), torch.tensor([D0 + h])) - f.apply(torch.tensor([x0]), torch.tensor([D0 - h]))) / (2 * h)).item()
-    print("replay %s backward: d/dh autograd %.6e vs FD %.6e ; d/dD autograd %.6e vs FD %.6e" % (which, gx.item(), fdx, gD.item(), fdD))
-    return abs(gx.item() - fdx) > 1e-6 * max(1, abs(fdx)) or abs(gD.item() - fdD) > 1e-6 * max(1, abs(fdD))
+    bad = False
+    if gx is not None:
+        print("replay %s backward: d/dh autograd %.6e vs FD %.6e" % (which, gx.item(), fdx))
+        bad |= abs(gx.item() - fdx) > 1e-6 * max(1, abs(fdx))
+    if gD is not None:
+        print("replay %s backward: d/dD autograd %.6e vs FD %.6e" % (which, gD.item(), fdD))
+        bad |= abs(gD.item() - fdD) > 1e-6 * max(1, abs(fdD))
+    return bad
 
 
 @obligation(PID, "a", title="custom backward of the rho1/rho2 root solves is the implicit-function derivative of the equation the forward pass solves, for all rho, D > 0")
@@ -50,9 +63,26 @@ def ob_a(ob):
         S.ST.sqrt_mode = "canon"
         expr = _residual_expr(cls, resname)
         ob.note("%s residual under test: %s" % (which, " ".join(expr.split())))
-        ctx = types.SimpleNamespace(saved_tensors=(SymTensor(np.array([rho], dtype=object)), SymTensor(np.array([D], dtype=object))))
+        ctx = types.SimpleNamespace(saved_tensors=(SymTensor(np.array([rho], dtype=object)), SymTensor(np.array([D], dtype=object))), needs_input_grad=(True, True))
         with symbolic_factories():
             dh, dD = cls.backward(ctx, SymTensor(np.array([g], dtype=object)))
+        # the same gradients must come back when only one of the two inputs is differentiable (h_sp from the table and
+        # learned exponents, or the reverse)
+        for nig in ((True, False), (False, True)):
+            ctx1 = types.SimpleNamespace(saved_tensors=ctx.saved_tensors, needs_input_grad=nig)
+            with symbolic_factories():
+                part = cls.backward(ctx1, SymTensor(np.array([g], dtype=object)))
+            for k, full in enumerate((dh, dD)):
+                if not nig[k]:
+                    continue
+                lab = "a:%s slot %d with needs_input_grad=%s" % (which, k, nig)
+                if not isinstance(part[k], SymTensor):
+                    if replay_rho_backward(which, nig):
+                        ob.violation("%s.backward returns no gradient for a differentiable input when the other input is not differentiable (needs_input_grad=%s): the dependence of the additive term on it is dropped" % (cls.__name__, nig), {"module": "harness.C07", "func": "replay_rho_backward", "args": {"which": which, "needs": list(nig)}})
+                        return
+                    raise HarnessError("missing-slot counterexample did not reproduce (%s)" % lab)
+                v0, _ = smt.prove(part[k].a[0] == full.a[0], [rho > 0, D > 0], lab, "nra", 60)
+                ob.verdict(v0, lab)
         S.ST.dual_n = 2
         try:
             r = SymTensor(np.array([Dual(rho, (z3.RealVal(1), z3.RealVal(0)))], dtype=object))
